@@ -85,6 +85,9 @@ pub struct Challenge {
     pub payload_order: u8,
     /// padding bytes between the fixed part and the payload, and between the two payload fields
     pub gap: u8,
+    /// TargetInfoMaxLen - TargetInfoLen and TargetNameMaxLen - TargetNameLen (MaxLen must be ignored by the receiver)
+    #[serde(default)]
+    pub max_len_delta: u16,
 }
 
 pub fn target_info_bytes(c: &Challenge) -> Vec<u8> {
@@ -108,13 +111,13 @@ pub fn build_challenge(c: &Challenge) -> Built {
     b.blob("Signature", b"NTLMSSP\0");
     b.u32le("MessageType", 2);
     b.u16le("TargetNameLen", c.target_name.len() as u16);
-    b.u16le("TargetNameMaxLen", c.target_name.len() as u16);
+    b.u16le("TargetNameMaxLen", (c.target_name.len() as u16).saturating_add(c.max_len_delta));
     b.u32le("TargetNameBufferOffset", name_off as u32);
     b.u32le("NegotiateFlags", c.flags);
     b.blob("ServerChallenge", &c.server_challenge);
     b.blob("Reserved", &[0; 8]);
     b.u16le("TargetInfoLen", ti.len() as u16);
-    b.u16le("TargetInfoMaxLen", ti.len() as u16);
+    b.u16le("TargetInfoMaxLen", (ti.len() as u16).saturating_add(c.max_len_delta));
     b.u32le("TargetInfoBufferOffset", info_off as u32);
     if has_version {
         b.blob("Version", &c.version);
@@ -452,7 +455,7 @@ mod test {
     }
     #[test]
     fn challenge_layout() {
-        let c = Challenge { flags: MANDATORY | NEG_UNICODE | NEG_VERSION, server_challenge: vec![1, 2, 3, 4, 5, 6, 7, 8], target_name: crypto::utf16le("SRV"), target_info: vec![(1, crypto::utf16le("SRV")), (7, vec![9; 8])], version: vec![6, 1, 0, 0, 0, 0, 0, 15], payload_order: 0, gap: 0 };
+        let c = Challenge { flags: MANDATORY | NEG_UNICODE | NEG_VERSION, server_challenge: vec![1, 2, 3, 4, 5, 6, 7, 8], target_name: crypto::utf16le("SRV"), target_info: vec![(1, crypto::utf16le("SRV")), (7, vec![9; 8])], version: vec![6, 1, 0, 0, 0, 0, 0, 15], payload_order: 0, gap: 0, max_len_delta: 0 };
         let b = build_challenge(&c);
         assert_eq!(&b.bytes[0..12], b"NTLMSSP\0\x02\0\0\0");
         assert_eq!(b.bytes.len(), 56 + 6 + (4 + 6) + (4 + 8) + 4);
